@@ -267,3 +267,104 @@ Proof.
     inversion H; subst. econstructor; eauto.
   - constructor. apply IH. exact H.
 Qed.
+
+(* ================================================================== without H2
+   C03's instruction-level export (AsmQExport.assemble_halts_no_bad_q) carries
+   "no executed instruction is bad" from the source run (Bridge_SdkAsmLog:
+   Target does not fault) to the assembled run, and Bridge_AsmQLog.asmq_halting
+   needs nothing more. *)
+From NQ Require Lang.AsmQLog Proofs.AsmQExport Proofs.Bridge_AsmQLog Proofs.Bridge_SdkAsmLog.
+Module BL := NQ.Proofs.Bridge_AsmQLog.
+Module BSL := NQ.Proofs.Bridge_SdkAsmLog.
+
+Lemma block_chain2 : forall pr cap code P T qp ms ms2 qa s,
+  AsmProofs.params_ok pr = true -> AsmSemQ.qexempt_ok (Asm.ap_exempt pr) = true ->
+  BS.t_prog (flatten code) = Some P -> BS.code_ok cap (flatten code) = true ->
+  Asm.assemble_ir pr P = Asm.AOk T -> BA.e_qprog T = Some qp ->
+  sx code ms ms2 ->
+  BS.lrel ms qa -> List.length (AsmSemQ.qa_um qa) = cap -> BA.qrel qa s ->
+  exists fuel s' pc' t,
+    Q.qrun qp s fuel = (s', pc', State.Halt) /\ BA.qrel t s' /\
+    BS.lrel (with_mreg ms2 (regs_of t)) t /\ List.length (AsmSemQ.qa_um t) = cap.
+Proof.
+  intros pr cap code P T qp ms ms2 qa s Hpar Hqex HP Hok HT Hqp Hsx L Hcap R.
+  destruct (proj2 (flatten_correct code ms ms2 Hsx)) as (f1 & F1).
+  destruct (BSL.frun_sim_log cap (flatten code) P HP Hok f1 0%nat ms ms2 qa F1 L Hcap
+              (BS.alloc_inv_start cap (flatten code) Hok ms)) as (n & qsrc & Hn & L2 & Hc2 & Hlog).
+  destruct (AsmQExport.assemble_halts_no_bad_q pr P T BL.bad Hpar Hqex (BS.t_prog_wf _ _ HP) HT
+              BL.bad_set (BL.bad_mono pr P) n qa qa qsrc (AsmQProofs.eqv_q_refl pr (Asm.named P) qa) Hn Hlog)
+    as (m & t & Hm & (He & Hu & Hs & Ht) & Hlog').
+  destruct (BL.asmq_halting m T qp qa s 0%nat t Hqp R Hm Hlog') as (s' & pc' & Hrun & R').
+  exists m, s', pc', t. split; [exact Hrun|]. split; [exact R'|]. split.
+  - eapply lrel_rebase; eauto.
+  - rewrite <- Hu. exact Hc2.
+Qed.
+
+Theorem prog_chain2 : forall pr cap segs st0 bs stF e0 eF ms qa s qps,
+  AsmProofs.params_ok pr = true -> AsmSemQ.qexempt_ok (Asm.ap_exempt pr) = true ->
+  Forall (fun seg => bwfs seg = true) segs -> Inv st0 -> BlockStart st0 -> TRel st0 e0 ms ->
+  BS.lrel ms qa -> has_cap cap qa -> BA.qrel qa s ->
+  lower_top true (prog_of segs) [] st0 = Ok (bs, stF) ->
+  eval_top (prog_of segs) (with_arr e0 (hoist_top (prog_of segs) (e_arr e0))) = Some eF ->
+  compiled pr cap bs qps ->
+  exists fuel sF msF qaF,
+    qrun_blocks fuel qps s = (sF, State.Halt) /\ TRel stF eF msF /\ BS.lrel msF qaF /\ BA.qrel qaF sF.
+Proof.
+  intros pr cap segs. induction segs as [|seg segs IH];
+    intros st0 bs stF e0 eF ms qa s qps Hpar Hqex Hw I0 B0 T0 L Hcap R Hl Hev Hc.
+  - cbn in Hl, Hev. inv_ok Hl. rewrite with_arr_self in Hev. inv_ok Hev. rewrite (compiled_nil_inv _ _ _ Hc).
+    exists 1, s, ms, qa. split; [reflexivity|]. split; [exact T0|]. split; assumption.
+  - inversion Hw as [|? ? Hw1 Hw2]; subst. cbn [prog_of] in Hl, Hev.
+    rewrite lower_top_seg in Hl by exact Hw1. rewrite hoist_top_seg in Hev by exact Hw1.
+    rewrite eval_top_seg in Hev by exact Hw1. cbn [app] in Hl.
+    destruct (lower_block true seg st0) as [[c st1]|] eqn:Hb; cbn [bind] in Hl; [|discriminate].
+    destruct (lower_flush c st1) as [[b st2]|] eqn:Hf; cbn [bind] in Hl; [|discriminate].
+    destruct (lower_top true (prog_of segs) [] st2) as [[rest st3]|] eqn:Hr; cbn [bind] in Hl; [|discriminate].
+    inv_ok Hl.
+    destruct (eval_block seg (with_arr e0 (hoist_block seg (e_arr e0)))) as [e1|] eqn:Eb; [|discriminate].
+    cbn zeta in Hev.
+    destruct (block_step seg st0 c st1 b st2 e0 e1 ms Hw1 I0 B0 T0 Hb Hf Eb) as (ms2 & Xb & I2 & B2 & T2).
+    destruct b as [code|].
+    + destruct (compiled_some_inv _ _ _ _ _ Hc) as (P & T & qp & qps' & -> & HP & Hok & HT & Hqp & Hc').
+      destruct (block_chain2 pr cap code P T qp ms ms2 qa s Hpar Hqex HP Hok HT Hqp Xb L Hcap R)
+        as (f1 & s' & pc' & t & Hrun & R' & L' & Hcap').
+      pose proof (TRel_with_mreg _ _ _ (regs_of t) B2 T2) as T2'.
+      destruct (IH st2 rest stF (snap e1) eF _ t s' qps' Hpar Hqex Hw2 I2 B2 T2' L' Hcap' R' Hr Hev Hc')
+        as (f2 & sF & msF & qaF & Hrun2 & TF & LF & RF).
+      exists (Nat.max f1 f2), sF, msF, qaF. split; [|split; [exact TF|split; assumption]].
+      cbn [qrun_blocks]. unfold Q.qrun in *.
+      rewrite (SemQProofs.qrun_mono f1 qp s 0%Z) by (rewrite ?Hrun; cbn; try discriminate; apply Nat.le_max_l).
+      rewrite Hrun. eapply qrun_blocks_mono; [exact Hrun2|apply Nat.le_max_r].
+    + subst ms2. pose proof (compiled_none_inv _ _ _ _ Hc) as Hc'.
+      exact (IH st2 rest stF (snap e1) eF ms qa s qps Hpar Hqex Hw2 I2 B2 T2 L Hcap R Hr Hev Hc').
+Qed.
+
+Theorem sdk_end_to_end2 : forall pr cap segs script e bs stL qps,
+  AsmProofs.params_ok pr = true -> AsmSemQ.qexempt_ok (Asm.ap_exempt pr) = true ->
+  Forall (fun seg => bwfs seg = true) segs ->
+  eval_prog (prog_of segs) script = Some e ->
+  lower_prog true (prog_of segs) = Ok (bs, stL) ->
+  compiled pr cap bs qps ->
+  exists fuel s,
+    qrun_blocks fuel qps (Q.mkQ (State.init_state cap) script []) = (s, State.Halt) /\
+    BS.inst_trace (Q.q_trace s) = e_trace e /\
+    (forall a, State.find Z.eqb (Z.of_nat a) (State.arrs (Q.q_st s)) = alookup a (e_arr e)).
+Proof.
+  intros pr cap segs script e bs stL qps Hpar Hqex Hw Hev Hl Hc.
+  unfold eval_prog in Hev. unfold lower_prog in Hl.
+  assert (T0 : TRel l0 (e0 script) (m0 script)).
+  { split; [exact (Rel_init script)|]. intros a _. reflexivity. }
+  assert (B0 : BlockStart l0) by (constructor; cbn; auto; intros; discriminate).
+  assert (Hcap : has_cap cap (AsmSemQ.init_qstate cap script)) by (unfold has_cap; cbn; apply repeat_length).
+  destruct (prog_chain2 pr cap segs l0 bs stL (e0 script) e (m0 script) (AsmSemQ.init_qstate cap script)
+              (Q.mkQ (State.init_state cap) script []) qps Hpar Hqex Hw Inv_l0 B0 T0
+              (BS.lrel_init cap script) Hcap (BA.qrel_init cap script) Hl Hev Hc)
+    as (fuel & sF & msF & qaF & Hrun & [RF _] & LF & QF).
+  exists fuel, sF. split; [exact Hrun|].
+  destruct QF as (Rs & _ & _ & Rt & _). split.
+  - pose proof (BS.l_trace _ _ LF) as Tr. unfold BS.trace_rel in Tr. unfold BS.inst_trace. rewrite Rt.
+    destruct (BS.replay (map BA.e_aev (AsmSemQ.qa_trace qaF))) as [[im n] out]. destruct Tr as (_ & _ & ->).
+    cbn [snd]. apply (r_trace _ _ _ _ RF).
+  - intro a. rewrite <- (r_arr _ _ _ _ RF). rewrite (BS.l_arrs _ _ LF).
+    rewrite Bridge_Asm.zlookup_find, (Bridge_Asm.sr_arrs _ _ Rs). reflexivity.
+Qed.
